@@ -320,6 +320,9 @@ package phase0
 //@   assigns anything, ghost(n_set_bal), ghost(n_inc_depidx), ghost(n_add_val), ghost(add_val_pub), ghost(add_val_creds), ghost(add_val_bal)
 //@   ensures c01_index: err == nil ==> n_inc_depidx == old(n_inc_depidx) + 1
 //@   ensures c01_one_effect: err == nil ==> (n_add_val == old(n_add_val) && n_set_bal == old(n_set_bal)) || (n_add_val == old(n_add_val) + 1 && n_set_bal == old(n_set_bal)) || (n_add_val == old(n_add_val) && n_set_bal == old(n_set_bal) + 1)
+// a top-up goes to a validator of this state: the pubkey cache is shared with sibling histories and may know the key at an index
+// this state's registry does not have (yet) - such a deposit is a new validator here, never a balance increase beyond the registry
+//@   ensures c01_topup_in_registry@C01: err == nil && n_set_bal == old(n_set_bal) + 1 ==> !st_vals_err(state) && !reg_len_err(st_vals(state)) && !st_bals_err(state) && (forall k :: {bal_at(n_set_bal, st_bals(state), k)} k >= reg_len(st_vals(state)) ==> bal_at(n_set_bal, st_bals(state), k) == bal_at(old(n_set_bal), st_bals(state), k))
 //@   ensures c01_new_validator: err == nil && n_add_val == old(n_add_val) + 1 ==> add_val_pub == old(dep.Data.Pubkey) && add_val_creds == old(dep.Data.WithdrawalCredentials) && add_val_bal == old(dep.Data.Amount)
 //@   ensures c03_new_validator_signed: err == nil && spec != nil && n_add_val == old(n_add_val) + 1 ==> pub_valid(old(dep.Data.Pubkey)) && sig_valid(old(dep.Data.Signature)) && (ignoreSignatureAndProof || bls_ok(old(dep.Data.Pubkey), seq(signing_root(deposit_msg_root(old(dep.Data.Pubkey), old(dep.Data.WithdrawalCredentials), old(dep.Data.Amount)), compute_domain(common.DOMAIN_DEPOSIT, spec.GENESIS_FORK_VERSION, RootT(0, 0, 0, 0, 0, 0, 0, 0, 0, 0, 0, 0, 0, 0, 0, 0, 0, 0, 0, 0, 0, 0, 0, 0, 0, 0, 0, 0, 0, 0, 0, 0)))), old(dep.Data.Signature)))
 //@   ensures c01_skipped: err == nil && spec != nil && n_add_val == old(n_add_val) && n_set_bal == old(n_set_bal) ==> !pub_valid(old(dep.Data.Pubkey)) || !sig_valid(old(dep.Data.Signature)) || (!ignoreSignatureAndProof && !bls_ok(old(dep.Data.Pubkey), seq(signing_root(deposit_msg_root(old(dep.Data.Pubkey), old(dep.Data.WithdrawalCredentials), old(dep.Data.Amount)), compute_domain(common.DOMAIN_DEPOSIT, spec.GENESIS_FORK_VERSION, RootT(0, 0, 0, 0, 0, 0, 0, 0, 0, 0, 0, 0, 0, 0, 0, 0, 0, 0, 0, 0, 0, 0, 0, 0, 0, 0, 0, 0, 0, 0, 0, 0)))), old(dep.Data.Signature)))
@@ -401,8 +404,15 @@ package phase0
 //@   opt noalloc
 //@   ensures (err != nil) == pst_bals_err(state)
 //@   ensures err == nil ==> r != nil && r == pst_bals(state)
+// the phase0 state's own setter (GenesisFromEth1 holds the concrete state): same assumed model as the interface method
+//@ sort Eth1T0 = common.Eth1Data
+//@ func (state *BeaconStateView) SetEth1Data(v) err
+//@   trusted
+//@   assigns ghost(n_set_eth1), ghost(set_eth1)
+//@   ensures n_set_eth1 == old(n_set_eth1) + 1 && set_eth1 == v
 //@ func GenesisFromEth1(spec, eth1BlockHash, time, deps, ignoreSignaturesAndProofs) (r0, r1, err)
 //@   property C13
+//@   opt rangeindex=on
 //@   panics off
 //@   opt weakcalls
 //@   opt inline=closures
@@ -410,6 +420,11 @@ package phase0
 //@   assigns anything, ghost(n_set_bal), ghost(n_set_lhdr), ghost(set_lhdr), ghost(n_set_eth1), ghost(set_eth1), ghost(n_set_eb), ghost(n_aelig_write), ghost(n_set_act), ghost(last_set_act_v), ghost(last_set_act_val), ghost(n_inc_depidx), ghost(n_add_val), ghost(add_val_pub), ghost(add_val_creds), ghost(add_val_bal), ghost(n_clist_append), ghost(last_clist)
 //@   ensures c13_effective_balance: err == nil && spec != nil && spec.EFFECTIVE_BALANCE_INCREMENT != 0 && r0 != nil && (forall a, b :: {reg_val(pst_vals(r0), a), reg_val(pst_vals(r0), b)} 0 <= a && a < b && b < reg_len(pst_vals(r0)) ==> reg_val(pst_vals(r0), a) != reg_val(pst_vals(r0), b)) ==> (forall i :: {reg_val(pst_vals(r0), i)} 0 <= i && i < reg_len(pst_vals(r0)) ==> v_eb_now(n_set_eb, reg_val(pst_vals(r0), i)) == min(bal_at(n_set_bal, pst_bals(r0), i) - bal_at(n_set_bal, pst_bals(r0), i) % spec.EFFECTIVE_BALANCE_INCREMENT, spec.MAX_EFFECTIVE_BALANCE))
 //@   ensures c13_activated: err == nil && spec != nil && spec.EFFECTIVE_BALANCE_INCREMENT != 0 && r0 != nil && (forall a, b :: {reg_val(pst_vals(r0), a), reg_val(pst_vals(r0), b)} 0 <= a && a < b && b < reg_len(pst_vals(r0)) ==> reg_val(pst_vals(r0), a) != reg_val(pst_vals(r0), b)) ==> (forall i :: {reg_val(pst_vals(r0), i)} 0 <= i && i < reg_len(pst_vals(r0)) && min(bal_at(n_set_bal, pst_bals(r0), i) - bal_at(n_set_bal, pst_bals(r0), i) % spec.EFFECTIVE_BALANCE_INCREMENT, spec.MAX_EFFECTIVE_BALANCE) == spec.MAX_EFFECTIVE_BALANCE ==> v_aelig(n_aelig_write, reg_val(pst_vals(r0), i)) == common.GENESIS_EPOCH)
+// the deposit root is refreshed before every deposit is processed (each deposit's proof is checked against the root of the deposits
+// up to and including it), and once more after the last one: eth1_data is written once at the start and len(deps) + 1 times after
+//@   ensures c13_deposit_root_steps: err == nil ==> n_set_eth1 == old(n_set_eth1) + len(deps) + 2
+//@   loop 1
+//@     invariant 0 <= rangeindex + 1 && rangeindex + 1 <= len(deps) && n_set_eth1 == old(n_set_eth1) + 1 + rangeindex + 1
 //@   loop 2
 //@     invariant vals == pst_vals(state) && bals == pst_bals(state) && valCount == reg_len(vals) && 0 <= i && i <= valCount
 //@     invariant spec != nil && spec.EFFECTIVE_BALANCE_INCREMENT != 0 && (forall a, b :: {reg_val(vals, a), reg_val(vals, b)} 0 <= a && a < b && b < reg_len(vals) ==> reg_val(vals, a) != reg_val(vals, b)) ==> (forall j :: {reg_val(vals, j)} 0 <= j && j < i ==> v_eb_now(n_set_eb, reg_val(vals, j)) == min(bal_at(n_set_bal, bals, j) - bal_at(n_set_bal, bals, j) % spec.EFFECTIVE_BALANCE_INCREMENT, spec.MAX_EFFECTIVE_BALANCE))
